@@ -114,6 +114,9 @@ impl Block for AuEncode {
     fn work(&mut self) -> Result<BlockRet> {
         let mut o = self.dst.write_buf()?;
         if let Some(h) = &self.header {
+            if o.is_empty() {
+                return Ok(BlockRet::WaitForStream(&self.dst, 1));
+            }
             let n = std::cmp::min(h.len(), o.len());
             o.fill_from_slice(&h[..n]);
             o.produce(n, &[]);
@@ -134,7 +137,8 @@ impl Block for AuEncode {
         }
         let n = std::cmp::min(i.len(), o.len() / ss);
         if n == 0 {
-            return Ok(BlockRet::WaitForStream(&self.dst, 1));
+            // Need room for a whole sample.
+            return Ok(BlockRet::WaitForStream(&self.dst, ss));
         }
 
         for j in 0..n {
